@@ -261,12 +261,14 @@ func (s *Store) createODSFile(
 		if err != nil {
 			return false, err
 		}
-		// the existing file may be a leftover of an interrupted ODSQ4 put. Its Q4 file, if incomplete,
-		// would be opened lazily by the accessor and served, so it has to go.
-		err = s.dropPartialQ4(square, roots, height)
-		if err != nil {
-			return false, err
-		}
+	}
+
+	// the block may have leftovers of an interrupted ODSQ4 put, whether or not its ODS file was already
+	// there (the two files are written concurrently). Its Q4 file, if incomplete, would be opened lazily
+	// by the accessor and served, so it has to go before the height becomes reachable.
+	err = s.dropPartialQ4(square, roots, height)
+	if err != nil {
+		return false, err
 	}
 
 	// create hard link with height as name
